@@ -71,11 +71,11 @@ fn run_round(t: usize, n: usize, order: &[usize], spins: &[u32]) -> Round {
 pub fn tags_case(idx: u64, rng: &mut Rng, obs: &mut Obs) {
     let t = THREADS[(idx % 3) as usize];
     let (n, rounds) = match (obs.tier, t) {
-        (Tier::Quick, 2) => (4000, 6),
-        (Tier::Quick, 8) => (2000, 4),
-        (Tier::Quick, _) => (1000, 2),
-        (Tier::Thorough, 2) => (20_000, 12),
-        (Tier::Thorough, 8) => (10_000, 8),
+        (Tier::Quick, 2) => (20_000, 6),
+        (Tier::Quick, 8) => (5_000, 4),
+        (Tier::Quick, _) => (1_500, 2),
+        (Tier::Thorough, 2) => (50_000, 12),
+        (Tier::Thorough, 8) => (20_000, 8),
         (Tier::Thorough, _) => (10_000, 3),
     };
     let mut all_in_case: HashSet<Tag> = HashSet::new();
